@@ -5,10 +5,10 @@
 # (4) demo fails with the patch; (5) demo passes without; (6) vcheck on the patched tree reports a VIOLATION.
 export GOFLAGS=-mod=mod GOPROXY=off GOSUMDB=off GOTOOLCHAIN=local
 ID=$1; V=$2; TIER=${3:-quick}
-W=/tmp/seed/$ID; O=$W/_out/$V; D=/verif/seeded/$ID$V
+ROOT=${SEEDROOT:-/tmp/seed}; SUF=${SEEDSUFFIX:-}; W=$ROOT/$ID; O=$W/_out/$V; D=/verif/seeded/$ID$V$SUF
 [ -f $O/patch.diff ] || { echo "$ID$V: no patch"; exit 0; }
 cd $W || exit 1
-git checkout -q -- . 2>/dev/null; rm -f zz_demo_*_test.go
+git checkout -q -- . 2>/dev/null; rm -f zz_demo*_test.go
 mkdir -p $D
 cp $O/patch.diff $D/patch.diff; cp $O/README.md $D/README.md 2>/dev/null
 demo=$(ls $O/demo_test.go 2>/dev/null)
@@ -17,21 +17,21 @@ git apply --check $O/patch.diff 2>/dev/null || { echo "$ID$V: PATCH DOES NOT APP
 run_demo() { # returns 0 if demo passes
   [ -n "$demo" ] || return 2
   cp $demo zz_demo_${ID}_test.go
-  timeout 300 go test -count=1 -vet=off -run 'Demo' -timeout 200s . >/tmp/seed/$ID.demo.log 2>&1; r=$?
+  timeout 300 go test -count=1 -vet=off -run 'Demo' -timeout 200s . >$ROOT/$ID.demo.log 2>&1; r=$?
   rm -f zz_demo_${ID}_test.go
   return $r
 }
 run_demo; without=$?
 git apply $O/patch.diff
 go build ./... >/dev/null 2>&1; build=$?
-flock /tmp/rpc-test.lock go test -count=1 -vet=off . >/tmp/seed/$ID.suite.log 2>&1; suite=$?
+flock /tmp/rpc-test.lock go test -count=1 -vet=off . >$ROOT/$ID.suite.log 2>&1; suite=$?
 run_demo; with=$?
 # the check
 cd /verif
-VERIF_REPO=$W VERIF_OUT=/tmp/seed/$ID.$V.out ./vcheck.sh $ID --tier $TIER > /tmp/seed/$ID.$V.check.log 2>&1; chk=$?
-keys=$(grep "^violation key=" /tmp/seed/$ID.$V.check.log | sed 's/violation key=\([^ ]*\).*/\1/' | sort -u | tr '\n' ' ')
+VERIF_REPO=$W VERIF_OUT=$ROOT/$ID.$V.out ./vcheck.sh $ID --tier $TIER > $ROOT/$ID.$V.check.log 2>&1; chk=$?
+keys=$(grep "^violation key=" $ROOT/$ID.$V.check.log | sed 's/violation key=\([^ ]*\).*/\1/' | sort -u | tr '\n' ' ')
 cd $W; git checkout -q -- .
-python3 - "$ID" "$V" "$build" "$suite" "$without" "$with" "$chk" "$keys" "$TIER" <<'PY'
+python3 - "$ID" "$V$SUF" "$build" "$suite" "$without" "$with" "$chk" "$keys" "$TIER" <<'PY'
 import json,sys,os
 ID,V,build,suite,without,withp,chk,keys,tier=sys.argv[1:]
 d=f"/verif/seeded/{ID}{V}"
